@@ -141,6 +141,18 @@ fn strat(t: Tier) -> proptest::strategy::BoxedStrategy<FragCase> {
     }
 }
 
+fn run_long_frag(ctx: &Ctx) -> SubReport {
+    let mk = |shard: usize, shards: usize| crate::fragcase::long_cases().into_iter().enumerate().filter(move |(i, _)| i % shards.min(4) == shard && shard < 4).map(|(_, c)| c);
+    let mut r = run_enumerated(ctx, "long_sequences", &mk, &eval);
+    r.exhaustive = false;
+    r.notes.push("fixed list: a 70 000-sample segment, 400 two-sample segments with empty flushes, 3 MiB / 1 MiB+1 / empty samples, 255/256/257/65 536 samples per segment".into());
+    r
+}
+fn replay_long_frag(v: &serde_json::Value) -> Result<Outcome, String> {
+    let c: crate::fragcase::FragCase = serde_json::from_value(v.clone()).map_err(|e| e.to_string())?;
+    Ok(eval(&c))
+}
+
 pub fn def() -> PropertyDef {
     PropertyDef {
         fuzz_targets: &["c10_frag"],
@@ -152,6 +164,9 @@ pub fn def() -> PropertyDef {
                constant origin for constant-interval input with >=2 samples per segment, init byte-stability); non-trivial = >=3 segments and \
                (first DTS != 0 or irregular spacing)",
         assumptions: &["gaps below 2^31 ticks and |pts-dts| below 2^31 (beyond: C16)"],
-        subs: vec![Box::new(PSub { name: "timeline", quick: 40000, thorough: 1200000, strat, eval })],
+        subs: vec![
+            Box::new(PSub { name: "timeline", quick: 40000, thorough: 1200000, strat, eval } ),
+            Box::new(ESub { name: "long_sequences", run: run_long_frag, replay: replay_long_frag }),
+        ],
     }
 }
